@@ -7,7 +7,7 @@ package main
 //	base=<hex> hdr=<nil|-|Khex~vhex,vhex+…> ctor=<Get|Delete|PostJSONBody|…|Do|DoBody|DoMP> m=<hex> ct=<hex> tmpl=<hex>: op ; op ; …
 //	ops:  call <params> <body>       params: nil | - | khex=s<vhex>,khex=i<int>    body: nil | j<ahex>:<n> | f- | f<khex>=<vhex>,…
 //	                                 (further value kinds: l<int> int64, b<0|1> bool, t<vhex> defined string type, g<vhex> fmt.Stringer)
-//	      eval <io index> <fault> <resp>     fault: none|ser|tx|read|dec|dect      resp: ok<vhex>:<k>[:<status>] | bad[:<status>]
+//	      eval <io index> <fault> <resp>     fault: none|ser|tx|read|dec|dect      resp: ok<vhex>:<k>[:<status>] | bad[:<status>] | empty[:<status>] (no body at all)
 //	                                          (<status> = HTTP status of the stub's response, 200 if absent; the property decodes
 //	                                          the body whatever the status is)
 //	      mut (add a header to the request that was sent last) | dh (print DefaultHeader) | sent (transport calls so far)
@@ -170,6 +170,9 @@ func (s *c17Stub) RoundTrip(r *http.Request) (*http.Response, error) {
 		}
 		b, _ := json.Marshal(c17Target{V: unhx(parts[0]), K: k})
 		body = bytes.NewReader(b)
+	case strings.HasPrefix(s.resp, "empty"):
+		// a response without any body: still handed to the deserializer (which fails on it, as on `bad`)
+		body = strings.NewReader("")
 	default:
 		body = strings.NewReader("{")
 	}
@@ -547,8 +550,11 @@ func c17GenResp(rng *rand.Rand) string {
 	if rng.Intn(2) == 0 {
 		st = ":" + strconv.Itoa(c17Statuses[rng.Intn(len(c17Statuses))])
 	}
-	if rng.Intn(6) == 0 {
+	switch rng.Intn(12) {
+	case 0:
 		return "bad" + st
+	case 1:
+		return "empty" + st
 	}
 	return "ok" + hx(c17Words[rng.Intn(len(c17Words))]) + ":" + strconv.Itoa(rng.Intn(100)-10) + st
 }
@@ -570,6 +576,17 @@ func c17Gen(tier string, rng *rand.Rand, emit func(string)) map[string]interface
 	stats := map[string]int{}
 	count := func(k string) { stats[k]++ }
 	// 1. bounded-exhaustive: every constructor x every fault x 0/1/2 evaluations x header variants, fixed 2-placeholder template
+	for _, ctor := range c17Ctors {
+		for _, f := range []string{"none", "dec", "dect"} {
+			for _, st := range []string{"", ":204", ":200", ":500"} {
+				body := "nil"
+				if c17Kind(ctor) == 1 {
+					body = "j" + hx("a") + ":1"
+				}
+				emit(c17Head(c17Bases[0], "nil", ctor, c17Methods[0], c17CTypes[0], "e/{id}") + "call " + hx("id") + "=i1 " + body + " ; eval 0 " + f + " empty" + st + " ; sent ; eval 0 none ok" + hx("v") + ":2 ; sent")
+			}
+		}
+	}
 	exhaustive := 0
 	for _, ctor := range c17Ctors {
 		for _, f := range c17Faults {
